@@ -123,29 +123,28 @@ def wh(name):
     return (int(m.group(1)), int(m.group(2))) if m else (0, 0)
 
 
-def classify(e):
-    """-> (driver name, w, h, a, b) or None when no driver covers the signature"""
-    n, sig = e["ptr"], e["sig"]
-    w, h = wh(n)
-    R = []
+def rule_modules(groups=None):
+    """lib/kern_rules_<group>.py modules: SOURCES (C files in src/), DRIVERS (driver names) and classify(e, w, h)."""
+    import glob
+    import importlib
+    here = os.path.dirname(os.path.abspath(__file__))
+    mods = []
+    for f in sorted(glob.glob(os.path.join(here, "kern_rules_*.py"))):
+        g = os.path.basename(f)[len("kern_rules_"):-3]
+        if groups and g not in groups:
+            continue
+        mods.append(importlib.import_module("kern_rules_" + g))
+    return mods
 
-    def rule(cond, drv, a=0, b=0, ww=None, hh=None):
-        if cond and not R:
-            R.append((drv, w if ww is None else ww, h if hh is None else hh, a, b))
-    rule(sig == "void(uint8_t*,ptrdiff_t,const uint8_t*,const uint8_t*)" and "_predictor_" in n, "intra_lbd")
-    rule(sig in ("void(uint16_t*,ptrdiff_t,const uint16_t*,const uint16_t*,int32_t)",
-                 "void(uint16_t*,ptrdiff_t,const uint16_t*,const uint16_t*,int)") and "_predictor_" in n, "intra_hbd")
-    rule(sig == "uint32_t(const uint8_t*,int,const uint8_t*,int)" and re.fullmatch(r"svt_aom_sad\d+x\d+", n), "sad")
-    rule(re.fullmatch(r"svt_aom_sad\d+x\d+x4d", n) is not None, "sad4d")
-    rule(sig == "unsigned int(const uint8_t*,int,const uint8_t*,int,unsigned int*)" and re.fullmatch(r"svt_aom_variance\d+x\d+", n), "variance")
-    m = re.fullmatch(r"svt_aom_highbd_(\d+)_variance\d+x\d+", n)
-    rule(sig == "unsigned int(const uint8_t*,int,const uint8_t*,int,unsigned int*)" and m is not None, "variance_hbd", a=int(m.group(1)) if m else 0)
-    rule(re.fullmatch(r"svt_aom_obmc_sad\d+x\d+", n) is not None, "obmc_sad")
-    rule(re.fullmatch(r"svt_aom_obmc_variance\d+x\d+", n) is not None, "obmc_variance")
-    rule(re.fullmatch(r"svt_aom_obmc_sub_pixel_variance\d+x\d+", n) is not None, "obmc_subpel_variance")
-    rule(n == "svt_aom_mse16x16", "variance")
-    rule(n == "svt_aom_highbd_8_mse16x16", "mse_void_hbd8")
-    return R[0] if R else None
+
+def classify(e, mods):
+    """-> (driver name, w, h, a, b) or None when no driver covers the signature"""
+    w, h = wh(e["ptr"])
+    for m in mods:
+        c = m.classify(e, w, h)
+        if c:
+            return c
+    return None
 
 
 def lib_symbols(libs):
@@ -164,18 +163,19 @@ ISA_ENUM = {"mmx": "ISA_MMX", "sse": "ISA_SSE", "sse2": "ISA_SSE2", "sse3": "ISA
             "sse4_2": "ISA_SSE4_2", "avx": "ISA_AVX", "avx2": "ISA_AVX2", "avx512": "ISA_AVX512"}
 
 
-def emit(repo, libs, outpath, drivers):
+def emit(repo, libs, outpath, mods):
     """Write the C table of every dispatch entry that has at least one SIMD variant present in the library build.
 
     drivers: names of drivers implemented by the harness. Returns a description (dict) for the evidence."""
     es = entries(repo)
     syms = lib_symbols(libs)
+    drivers = [d for m in mods for d in m.DRIVERS]
     lines = ['// generated by lib/kern_gen.py from the SET_* entries of the current tree - do not edit',
              '#include "EbDefinitions.h"', '#include "common_dsp_rtcd.h"', '#include "aom_dsp_rtcd.h"', '#include "kern_core.h"', ""]
     rows, info = [], []
     declared = set()
     for e in es:
-        c = classify(e)
+        c = classify(e, mods)
         present = [(isa, f) for isa, f in e["variants"] if f in syms]
         absent = [(isa, f) for isa, f in e["variants"] if f not in syms]
         d = {"ptr": e["ptr"], "c": e["c"], "sig": e["sig"], "file": e["file"], "variants": present, "not_in_build": absent,
@@ -205,6 +205,14 @@ def emit(repo, libs, outpath, drivers):
         lines.append('    {"%s", drv_%s},' % (dn, dn))
     lines.append("};")
     lines.append("const int g_ndrivers = %d;" % len(drivers))
+    lines.append("")
+    lines.append("// the library's own run-time dispatch, configured as in production on this host: C references (and SIMD kernels) that")
+    lines.append("// call other kernels through dispatch pointers (svt_memcpy, ...) find them initialised")
+    lines.append("void kern_table_init(void) {")
+    lines.append("    CPU_FLAGS f = get_cpu_flags_to_use();")
+    lines.append("    setup_common_rtcd_internal(f);")
+    lines.append("    setup_rtcd_internal(f);")
+    lines.append("}")
     txt = "\n".join(lines) + "\n"
     os.makedirs(os.path.dirname(outpath), exist_ok=True)
     if not os.path.exists(outpath) or open(outpath).read() != txt:
